@@ -254,6 +254,8 @@ func ReadCropParamClassic(PARANAM string, l *CropSharedVars, g *GlobalVarsMain) 
 	// those included in OBMAS (e.g. beet = S4 =Worg[3]) should be included in the N function
 	// N-Gehaltsfunktion Nr.  a=4.90 b=0.45 below gr. organ org=S4 ..
 
+	// parameters of function 5 are optional tokens: without them the values of the previous crop must not survive
+	g.RGA, g.RGB, g.SubOrgan = 0, 0, 0
 	if g.NGEFKT == 5 {
 		// TODO: setup default
 		line04Token := strings.Fields(LINE04)
